@@ -124,6 +124,8 @@ type Ctx struct {
 	Replaying   bool
 	// TScale multiplies the thorough tier's case counts (per-property setting of the driver).
 	TScale int
+	// QScale multiplies the quick tier's case counts likewise.
+	QScale int
 
 	mu       sync.Mutex
 	sum      Summary
@@ -146,6 +148,10 @@ func NewCtx(prop, tier string, seed int64, shard, nshards int, out string) *Ctx 
 	c := &Ctx{Prop: prop, Tier: tier, Seed: seed, Shard: shard, NShards: nshards, OutDir: out, TScale: 1}
 	if v, err := strconv.Atoi(os.Getenv("VERIF_TSCALE")); err == nil && v > 0 {
 		c.TScale = v
+	}
+	c.QScale = 1
+	if v, err := strconv.Atoi(os.Getenv("VERIF_QSCALE")); err == nil && v > 0 {
+		c.QScale = v
 	}
 	c.sum = Summary{Property: prop, Tier: tier, Seed: seed, Shard: shard, NShards: nshards,
 		Ops: map[string]*OpStat{}, Buckets: map[string]int64{}, Extra: map[string]any{}}
@@ -171,7 +177,7 @@ func (c *Ctx) N(quick, thorough int) int {
 	if c.Thorough() {
 		return thorough * c.TScale
 	}
-	return quick
+	return quick * c.QScale
 }
 
 // Job iterates case indices [0,n) of a named sub-sweep, giving this shard its share.
